@@ -1,0 +1,158 @@
+// Copyright 2025 The Go Authors. All rights reserved.
+// Use of this source code is governed by a BSD-style
+// license that can be found in the LICENSE file.
+
+//go:build verif
+
+package proxy
+
+import (
+	"net"
+	"net/netip"
+)
+
+// Contracts, spec functions and lemma harnesses for the deductive verifier in /verif (govc).
+// This file is compiled only with -tags verif; it adds no behaviour to the package.
+
+// ---------------------------------------------------------------------------
+// PerHost routing (property C53).
+//
+// The standard-library notions the property is stated in are taken as they are (deterministic,
+// otherwise uninterpreted functions, /verif/stdlib/proxy.contracts):
+//   "host is an IP literal"      netip.ParseAddr(host) returns a nil error
+//   "ip is contained in network" (*net.IPNet).Contains(ip)
+//   "ip is an added IP"          (net.IP).Equal(ip)
+// The name rules (zone suffix, host equality) are written out on bytes below.
+
+// specIsIP: host is an IP literal.
+//
+//@ pure
+func specIsIP(host string) bool {
+	_, err := netip.ParseAddr(host)
+	return err == nil
+}
+
+// specIPOf: the address an IP literal denotes, as the net.IP the package compares with.
+//
+//@ pure
+func specIPOf(host string) net.IP {
+	nip, _ := netip.ParseAddr(host)
+	return net.IP(nip.AsSlice())
+}
+
+//@ pure
+func specContains(n *net.IPNet, ip net.IP) bool { return n.Contains(ip) }
+
+//@ pure
+func specSameIP(a, b net.IP) bool { return a.Equal(b) }
+
+// sameStr, endsIn: string equality and "s ends with suf", written out on bytes. They are checked
+// against their contracts as units of their own; the `function` flag lets callers treat them as
+// named predicates (an uninterpreted symbol plus the defining equivalence at each use), which
+// keeps string comparisons out of quantified loop invariants.
+//
+//@ function
+//@ ensures r <==> a == b
+func sameStr(a, b string) (r bool) { return a == b }
+
+//@ function
+//@ ensures r <==> (len(s) >= len(suf) && s[len(s)-len(suf):] == suf)
+func endsIn(s, suf string) (r bool) {
+	return len(s) >= len(suf) && s[len(s)-len(suf):] == suf
+}
+
+//@ pure
+func specSame(a, b string) bool { return sameStr(a, b) }
+
+//@ pure
+func specEndsIn(s, suf string) bool { return endsIn(s, suf) }
+
+// zoneMatch: the documented rule for a zone ".example.com": the name ends in the zone, or
+// equals the zone without its leading dot.
+//
+//@ pure
+func zoneMatch(host, zone string) bool {
+	return endsIn(host, zone) || sameStr(host, zone[1:])
+}
+
+//@ func (*PerHost).dialerForRequest(p, host) (r)
+//@   requires p != nil
+//@   requires forall i int :: 0 <= i && i < len(p.bypassZones) ==> len(p.bypassZones[i]) >= 1
+//@   ensures r == p.bypass || r == p.def
+//@   ensures forall i int :: specIsIP(host) && 0 <= i && i < len(p.bypassNetworks) && specContains(p.bypassNetworks[i], specIPOf(host)) ==> r == p.bypass
+//@   ensures forall i int :: specIsIP(host) && 0 <= i && i < len(p.bypassIPs) && specSameIP(p.bypassIPs[i], specIPOf(host)) ==> r == p.bypass
+//@   ensures specIsIP(host) && r != p.def ==> (exists i int :: 0 <= i && i < len(p.bypassNetworks) && specContains(p.bypassNetworks[i], specIPOf(host))) || (exists i int :: 0 <= i && i < len(p.bypassIPs) && specSameIP(p.bypassIPs[i], specIPOf(host)))
+//@   ensures forall i int :: !specIsIP(host) && 0 <= i && i < len(p.bypassZones) && zoneMatch(host, p.bypassZones[i]) ==> r == p.bypass
+//@   ensures forall i int :: !specIsIP(host) && 0 <= i && i < len(p.bypassHosts) && specSame(p.bypassHosts[i], host) ==> r == p.bypass
+//@   ensures !specIsIP(host) && r != p.def ==> (exists i int :: 0 <= i && i < len(p.bypassZones) && zoneMatch(host, p.bypassZones[i])) || (exists i int :: 0 <= i && i < len(p.bypassHosts) && specSame(p.bypassHosts[i], host))
+//@   loop 1 invariant -1 <= rangeindex && rangeindex < len(p.bypassNetworks)
+//@   loop 1 invariant forall j int :: 0 <= j && j <= rangeindex ==> !specContains(p.bypassNetworks[j], specIPOf(host))
+//@   loop 2 invariant -1 <= rangeindex && rangeindex < len(p.bypassIPs)
+//@   loop 2 invariant forall j int :: 0 <= j && j <= rangeindex ==> !specSameIP(p.bypassIPs[j], specIPOf(host))
+//@   loop 3 invariant -1 <= rangeindex && rangeindex < len(p.bypassZones)
+//@   loop 3 invariant rangeindex >= 0 ==> !specEndsIn(host, p.bypassZones[rangeindex])
+//@   loop 3 invariant rangeindex >= 0 ==> !specSame(host, p.bypassZones[rangeindex][1:])
+//@   loop 3 invariant forall j int :: 0 <= j && j <= rangeindex ==> !specEndsIn(host, p.bypassZones[j])
+//@   loop 3 invariant forall j int :: 0 <= j && j <= rangeindex ==> !specSame(host, p.bypassZones[j][1:])
+//@   loop 4 invariant -1 <= rangeindex && rangeindex < len(p.bypassHosts)
+//@   loop 4 invariant rangeindex >= 0 ==> !specSame(p.bypassHosts[rangeindex], host)
+//@   loop 4 invariant forall j int :: 0 <= j && j <= rangeindex ==> !specSame(p.bypassHosts[j], host)
+
+// ---------------------------------------------------------------------------
+// Configuration: AddIP / AddNetwork / AddHost / AddZone append exactly one entry, keep all earlier
+// entries, and AddZone establishes the representation of zones dialerForRequest relies on.
+
+// dropDot: s without one trailing dot.
+//
+//@ pure
+func dropDot(s string) string {
+	if len(s) >= 1 && s[len(s)-1] == '.' {
+		return s[:len(s)-1]
+	}
+	return s
+}
+
+// zoneName: the domain a zone argument names: one trailing dot and one leading dot removed
+// ("example.com", ".example.com", "example.com." all name example.com).
+//
+//@ pure
+func zoneName(zone string) string {
+	t := dropDot(zone)
+	if len(t) >= 1 && t[0] == '.' {
+		return t[1:]
+	}
+	return t
+}
+
+//@ func (*PerHost).AddIP(p, ip)
+//@   allocates
+//@   requires p != nil && len(p.bypassIPs) < 1<<40
+//@   ensures len(p.bypassIPs) == old(len(p.bypassIPs)) + 1
+//@   ensures samebase(p.bypassIPs[old(len(p.bypassIPs))], ip) && startoff(p.bypassIPs[old(len(p.bypassIPs))]) == startoff(ip) && len(p.bypassIPs[old(len(p.bypassIPs))]) == len(ip)
+//@   ensures forall k int :: 0 <= k && k < old(len(p.bypassIPs)) ==> samebase(p.bypassIPs[k], old(p.bypassIPs[k])) && startoff(p.bypassIPs[k]) == old(startoff(p.bypassIPs[k])) && len(p.bypassIPs[k]) == old(len(p.bypassIPs[k]))
+//@   modifies p.bypassIPs, elems(p.bypassIPs)
+//@
+//@ func (*PerHost).AddNetwork(p, n)
+//@   allocates
+//@   requires p != nil && len(p.bypassNetworks) < 1<<40
+//@   ensures len(p.bypassNetworks) == old(len(p.bypassNetworks)) + 1
+//@   ensures p.bypassNetworks[old(len(p.bypassNetworks))] == n
+//@   ensures forall k int :: 0 <= k && k < old(len(p.bypassNetworks)) ==> p.bypassNetworks[k] == old(p.bypassNetworks[k])
+//@   modifies p.bypassNetworks, elems(p.bypassNetworks)
+//@
+//@ func (*PerHost).AddHost(p, host)
+//@   allocates
+//@   requires p != nil && len(p.bypassHosts) < 1<<40
+//@   ensures len(p.bypassHosts) == old(len(p.bypassHosts)) + 1
+//@   ensures p.bypassHosts[old(len(p.bypassHosts))] == dropDot(host)
+//@   ensures forall k int :: 0 <= k && k < old(len(p.bypassHosts)) ==> p.bypassHosts[k] == old(p.bypassHosts[k])
+//@   modifies p.bypassHosts, elems(p.bypassHosts)
+//@
+//@ func (*PerHost).AddZone(p, zone)
+//@   allocates
+//@   requires p != nil && len(p.bypassZones) < 1<<40
+//@   ensures len(p.bypassZones) == old(len(p.bypassZones)) + 1
+//@   ensures len(p.bypassZones[old(len(p.bypassZones))]) >= 1 && p.bypassZones[old(len(p.bypassZones))][0] == '.'
+//@   ensures p.bypassZones[old(len(p.bypassZones))][1:] == zoneName(zone)
+//@   ensures forall k int :: 0 <= k && k < old(len(p.bypassZones)) ==> p.bypassZones[k] == old(p.bypassZones[k])
+//@   modifies p.bypassZones, elems(p.bypassZones)
